@@ -32,6 +32,18 @@ def _impl(op):
     return impl.bump_bid(op["s"])
 
 
+NOFLAGS = {"major": False, "minor": False, "patch": False, "tag": None, "tag_num": False, "pin_increments": False, "pin_date": True}
+
+
+def bump_rendered(b):
+    """one bump of the BUILD value as the user sees it: through parse -> incr -> render of the pattern vYYYY.BUILD"""
+    r = impl.incr("v2020." + b, "vYYYY.BUILD", NOFLAGS, [2020, 1, 1], [2020, 1, 1])
+    if r.get("err") == "OverflowError":
+        return None
+    v = r.get("ok")
+    return v[len("v2020."):] if v else "?" + repr(r)
+
+
 def _region(b):
     """known-finding region F-C17-pad: five or more digits, value below 1000"""
     return "F-C17-pad" if (len(b) >= 5 and int(b) < 1000) else None
@@ -64,13 +76,19 @@ def run(chk, driver, tier):
         r = impl.bump_bid(s)
         b2 = r.get("ok")
         chk.oracle_case({"start": s, "next": b2}, _oracle(s, b2, False), _region(s))
+    # single steps through the rendered version string (BUILD must be carried verbatim through parse and render)
+    for s in rng.sample(ids, min(len(ids), 4000)) + ["01234", "09990", "001000", "0099999", "00012"]:
+        b2 = bump_rendered(s)
+        chk.oracle_case({"start": s, "next": b2, "via": "rendered"}, _oracle(s, b2, False), _region(s))
     nchains, chainlen = (40, 10000) if tier == "thorough" else (8, 1500)
-    for _ in range(nchains):
-        b = rng.choice(["1", "0001", "0998", "1001", "09", "8999", "99998", "0000001"]) if rng.random() < 0.6 else str(rng.randint(0, 99999))
+    for ci in range(nchains):
+        b = rng.choice(["1", "0001", "0998", "1001", "09", "8999", "99998", "0000001", "09990", "01234"]) if rng.random() < 0.6 else str(rng.randint(0, 99999))
         start, gen = b, False
         for i in range(chainlen):
-            r = impl.bump_bid(b)
-            b2 = r.get("ok")
+            if ci % 2 == 0:
+                b2 = bump_rendered(b)
+            else:
+                b2 = impl.bump_bid(b).get("ok")
             v = _oracle(b, b2, gen)
             if v or b2 is None:
                 chk.oracle_case({"chain_start": start, "step": i, "from": b, "to": b2}, v, _region(b))
